@@ -839,7 +839,7 @@ def gen_mirror_case(rng, big):
         case['M'] = enc_arr(gen_matrix(rng, npix, nact, False, float(rng.choice([0.4, 0.8, 1.0])), bool(rng.random() < 0.3)))
     elif kind.startswith('seg'):
         nseg = int(rng.integers(1, 4))
-        case['S'] = enc_arr(gen_segments(rng, npix, nseg))
+        case['S'] = enc_arr(gen_segments(rng, npix, nseg, weighted=bool(rng.random() < 0.3)))
         nact = 3 * nseg
     else:
         nact = 2
@@ -909,7 +909,7 @@ def gen_mirror_case(rng, big):
     return case
 
 
-def gen_segments(rng, npix, nseg):
+def gen_segments(rng, npix, nseg, weighted=False):
     S = np.zeros((npix, nseg))
     owner = rng.integers(0, nseg + 1, size=npix)      # nseg = belongs to no segment
     for i in range(npix):
@@ -918,6 +918,9 @@ def gen_segments(rng, npix, nseg):
     for j in range(nseg):
         if not S[:, j].any():
             S[int(rng.integers(0, npix)), j] = 1.0
+    if weighted:
+        # segments that are not 0/1 indicators (grey pixels, amplitudes): the general branch of the tip / tilt construction
+        S = S * rng.choice([0.5, 1.0, 2.0], size=S.shape)
     return S
 
 
@@ -995,6 +998,32 @@ class MirrorRun:
             IF = dense_of(dm.influence_functions.transformation_matrix).copy()
             if not np.array_equal(IF[:, :S.shape[1]], S):
                 self.bad.append(('segmented-piston-modes', 'the piston block of the influence functions is not the segment basis'))
+            # the model builds the influence functions from the segments and the grid itself (segInfl): piston, tip, tilt
+            # modes in exact rationals; and the oracle: a segment's tip / tilt mode is s·c - beta·s with the regression
+            # coefficient beta of s·c on s (plain NumPy, float64)
+            xs, ys = np.asarray(grid.x, dtype=float), np.asarray(grid.y, dtype=float)
+            want = [S]
+            for cc in (xs, ys):
+                blk = np.zeros_like(S)
+                for j in range(S.shape[1]):
+                    sj = S[:, j]
+                    t = sj * cc
+                    nrm = np.mean(sj ** 2) - np.mean(sj) ** 2
+                    blk[:, j] = t if nrm == 0 else t - ((np.mean(t * sj) - np.mean(sj) * np.mean(t)) / nrm) * sj
+                want.append(blk)
+            want = np.hstack(want)
+            scale = max(1.0, float(np.abs(xs).max(initial=0)), float(np.abs(ys).max(initial=0)))
+            if IF.shape != want.shape or not np.all(np.abs(IF - want) <= 1e-12 * scale):
+                self.bad.append(('segmented-tip-tilt-modes', 'the tip / tilt influence functions are not segment·x (resp. ·y) minus its regression on the segment: max deviation %.3g' % (
+                    float(np.abs(IF - want).max()) if IF.shape == want.shape else float('nan'))))
+            if getattr(self, 'model_on', True) and IF.shape == want.shape:
+                idx = len(self.lines)
+                self.numeric[idx] = IF.ravel().copy()
+                if not hasattr(self, 'numtol'):
+                    self.numtol = {}
+                self.numtol[idx] = 1e-12 * scale
+                self.emit('C14 seginfl %d %s %s %s' % (S.shape[0], fmt_mat(S.T) if S.shape[1] else '-', fmt_vec(xs), fmt_vec(ys)), 'numeric')
+                self.count('segmented-influence-functions built by the model')
             return dm, IF
         if kind == 'tiptilt' and first:
             dm = hcipy.TipTiltMirror(grid)
@@ -1732,6 +1761,37 @@ def directed_cases():
 
 # ---------------------------------------------------------------------------------------------
 
+class SliceBoxRun:
+    """Exhaustive tie of the model's `sliceIndices` / `sliceIdx` to CPython's slice.indices on a box:
+    every n <= nmax and every start / stop / step in [-v, v] ∪ {None}."""
+
+    def __init__(self, case):
+        self.case = case
+        self.bad, self.counts, self.numeric, self.hits, self.numtol = [], {}, {}, {}, {}
+        self.lines, self.impl = ['C14 reset'], [None]
+        self.nontrivial = True
+
+    def run(self):
+        vals = [None] + list(range(-self.case['v'], self.case['v'] + 1))
+        f = lambda x: '-' if x is None else str(x)  # noqa: E731
+        for n in range(self.case['nmax'] + 1):
+            for a in vals:
+                for b in vals:
+                    for c in vals:
+                        self.lines.append('C14 sliceidx %d %s %s %s' % (n, f(a), f(b), f(c)))
+                        if c == 0:
+                            try:
+                                slice(a, b, c).indices(n)
+                                self.impl.append('ok ?')
+                            except ValueError:
+                                self.impl.append('err value')
+                            continue
+                        t = slice(a, b, c).indices(n)
+                        self.impl.append('ok %d %d %d [%s]' % (t[0], t[1], t[2], ','.join(str(x) for x in range(*t))))
+        self.counts['slice-box requests (n <= %d, start/stop/step in [-%d,%d] or None)' % (self.case['nmax'], self.case['v'], self.case['v'])] = len(self.lines) - 1
+        return self
+
+
 def is_read(line):
     t = line.split()
     return len(t) >= 3 and t[1] == 'mirror' and t[2] in ('read', 'opd', 'phase', 'forward', 'backward')
@@ -1740,6 +1800,8 @@ def is_read(line):
 def execute(case):
     if case['type'] == 'basis':
         return BasisRun(case).run()
+    if case['type'] == 'slicebox':
+        return SliceBoxRun(case).run()
     return (ExtremeRun(case) if case.get('extreme') else MirrorRun(case)).run()
 
 
@@ -1771,6 +1833,8 @@ def run(ctx):
         cases.append(gen_mirror_case(ctx.rng, big=(ctx.tier == 'thorough' and k % 4 == 0)))
     for k in range(ctx.scale(220, 3000)):
         cases.append(gen_extreme_case(ctx.rng, big=(ctx.tier == 'thorough' and k % 4 == 0)))
+    # exhaustive tie of slice.indices on a box (quick: n <= 6, arguments in [-8, 8] or None; thorough: n <= 12, [-15, 15])
+    cases.append({'type': 'slicebox', 'nmax': ctx.scale(6, 12), 'v': ctx.scale(8, 15)})
     all_lines, spans, runs = [], [], []
     for case in cases:
         r = execute(case)
@@ -1790,6 +1854,8 @@ def run(ctx):
                    tuple(b['form'] for b in case['bases']), tuple(o['op'] for o in case['ops']))
             ctx.case({'type': 'basis', 'npix': case['npix'], 'forms': [b['form'] for b in case['bases']], 'ops': [o['op'] for o in case['ops']]},
                      sig if nmA >= 1 and derived >= 1 else None)
+        elif case['type'] == 'slicebox':
+            ctx.case({'type': 'slicebox', 'nmax': case['nmax'], 'v': case['v']}, ('slicebox', case['nmax'], case['v']))
         else:
             ctx.count(('mirror-kind:' if not case.get('extreme') else 'extreme-mirror-kind:') + case['kind'])
             if not case.get('extreme'):
@@ -1820,6 +1886,9 @@ def run(ctx):
                 tk = r.lines[j].split()
                 if tk[1] == 'mirror' and tk[2] in ('forward', 'backward'):
                     vec = eval_formal_field(got)
+                elif tk[1] == 'seginfl':
+                    body = got.split()[1]
+                    vec = np.concatenate([parse_vec(rw) for rw in body.split(';')]) if body != '-' else np.zeros(0, dtype=complex)
                 else:
                     vec = parse_vec(got.split()[1])
                 if r.lines[j].endswith('mirror ideal') and got.startswith('ok'):
